@@ -529,6 +529,118 @@ def r6_ownership(L, repo):
     L.floor("C01.R6", "origins of gen_msg's return value", n, 1)
 
 
+def r8_roundtrip(L, repo):
+    """R8 (decode(encode(m)) equals m in every field; encoding does not change m; encoding is a function of the fields):
+    gen_msg() and parse_msg() of both message classes are folded END TO END by the checker's evaluator on witness messages
+    chosen at the corners of the field domains - both header versions, frame number 0 / maximum, every modulation,
+    all-zero / all-one / alternating bursts of 148 and 444 bits (an all-zero burst is a frequency-correction burst),
+    soft-bit extremes, NOPE indications, with and without legacy padding.  Required per witness: the decoded fields equal
+    the encoded ones; the message's fields are the same after encoding; a second encoding gives the same octets; after
+    changing one burst element in place a new encoding decodes to the changed burst (no stale pre-encoded copy)."""
+    from consteval import Arr, EnumMember, Opaque
+    FD = rel("data_msg") if "rel" in globals() else F
+    mod = repo.mod("data_msg")
+    mci = repo.need_class("data_msg", "Modulation")
+    members = {m.name: m for m in Ev(repo, mod).enum_members(mci)}
+    HYPER = fold(repo, repo.mod("gsm_shared"), ast.parse("GSM_HYPERFRAME", mode="eval").body)
+
+    def digest(l):
+        import zlib
+        return l if len(l) <= 8 else "%d elements, first %s, crc %08x" % (len(l), l[:4], zlib.crc32(repr(l).encode()))
+
+    def norm(v):
+        if isinstance(v, Arr):
+            return digest(list(v))
+        if isinstance(v, (bytes, bytearray)):
+            return digest(list(v))
+        if isinstance(v, EnumMember):
+            return "Modulation." + v.name
+        return v
+
+    def fields_of(e, keys):
+        out = {}
+        for k in keys:
+            if "self." + k in e.env:
+                out[k] = norm(e.env["self." + k])
+            else:
+                try:
+                    out[k] = norm(e.class_attr(e.self_cls, k))
+                except (Unknown, Raised):
+                    out[k] = "<unset>"
+        return out
+
+    def encode(ci, e, legacy):
+        c, g = repo.find_method(ci, "gen_msg")
+        kw = {"legacy": legacy} if any(a.arg == "legacy" for a in g.args.args + g.args.kwonlyargs) else {}
+        return bytes(e.call_func(g, c.mod, e._bindargs(g, ["<self>"], kw), self_cls=ci, writeback=True))
+
+    def decode(ci, data):
+        e2 = Ev(repo, ci.mod, env={}, self_cls=ci)
+        e2.ignore_calls = ("log.", "logging.")
+        c, p = repo.find_method(ci, "parse_msg")
+        e2.call_func(p, c.mod, e2._bindargs(p, ["<self>", bytearray(data)], {}), self_cls=ci, writeback=True)
+        return e2
+    wit = []
+    b148 = {"zeros": [0] * 148, "ones": [1] * 148, "alt": [1, 0] * 74}
+    b444 = {"zeros": [0] * 444, "mix": [1, 1, 0] * 148}
+    for ver in (0, 1):
+        for (bn, bits) in list(b148.items()) + list(b444.items()):
+            for legacy in (False, True):
+                wit.append(("TxMsg", "v%d %d-bit burst (%s)%s" % (ver, len(bits), bn, " legacy" if legacy else ""),
+                            {"ver": ver, "fn": HYPER - 1 if bn == "ones" else 0 if bn == "zeros" else 1234, "tn": 7 if bn == "alt" else 0,
+                             "pwr": 255 if bn == "ones" else 0, "burst": bytearray(bits)}, legacy))
+    s148 = {"max": [127] * 148, "min": [-127] * 148, "ramp": [((i * 7) % 255) - 127 for i in range(148)]}
+    s444 = {"max": [127] * 444, "ramp": [((i * 5) % 255) - 127 for i in range(444)]}
+    for (bn, sb) in list(s148.items()) + list(s444.items()):
+        for legacy in (False, True):
+            wit.append(("RxMsg", "v0 %d soft bits (%s)%s" % (len(sb), bn, " legacy" if legacy else ""),
+                        {"ver": 0, "fn": 0 if bn == "max" else HYPER - 1, "tn": 5, "rssi": -47 if bn == "max" else -120, "toa256": -32768 if bn == "min" else 32767,
+                         "burst": Arr("b", sb)}, legacy))
+    for mname, m in sorted(members.items()):
+        bl = m.attrs.get("bl")
+        if not isinstance(bl, int):
+            continue
+        wit.append(("RxMsg", "v1 %s burst" % mname, {"ver": 1, "fn": 42, "tn": 1, "rssi": -80, "toa256": -1, "mod_type": m,
+                                                     "tsc_set": 1, "tsc": 7, "ci": -1280 if bl > 148 else 0, "nope_ind": False,
+                                                     "burst": Arr("b", [((i * 3) % 255) - 127 for i in range(bl)])}, False))
+    wit.append(("RxMsg", "v1 NOPE indication", {"ver": 1, "fn": HYPER - 1, "tn": 0, "rssi": -110, "toa256": 0, "ci": 1280, "nope_ind": True, "burst": None}, False))
+    keys = {"TxMsg": ["ver", "fn", "tn", "pwr", "burst"], "RxMsg": ["ver", "fn", "tn", "rssi", "toa256", "nope_ind", "mod_type", "tsc_set", "tsc", "ci", "burst"]}
+    n = 0
+    for cls, title, flds, legacy in wit:
+        ci = repo.need_class("data_msg", cls)
+        fn_ = cls + ".gen_msg / parse_msg"
+        cmp_keys = [k for k in keys[cls] if k in flds]
+        try:
+            e = Ev(repo, ci.mod, env={"self." + k: v for k, v in flds.items()}, self_cls=ci)
+            e.ignore_calls = ("log.", "logging.")
+            before = fields_of(e, cmp_keys)
+            data = encode(ci, e, legacy)
+            after = fields_of(e, cmp_keys)
+            dec = fields_of(decode(ci, data), cmp_keys)
+            data2 = encode(ci, e, legacy)
+            mutated = None
+            if flds.get("burst") is not None:
+                b = e.env["self.burst"]
+                b[0] = (1 - b[0]) if cls == "TxMsg" else (-b[0] if b[0] else 5)
+                want_m = norm(b)
+                mutated = (want_m, fields_of(decode(ci, encode(ci, e, legacy)), ["burst"])["burst"])
+        except Unknown as ex:
+            raise AnalysisError("round trip of %s (%s) does not fold: %s" % (cls, title, ex))
+        except Raised as ex:
+            L.ob("C01.R8", FD, fn_, "%s %s: encodes and decodes" % (cls, title), "no exception", "raises %s" % ex.cls, False)
+            continue
+        n += 1
+        L.require("C01.R8", FD, fn_, "%s %s: decoding the encoding returns every field" % (cls, title), before, dec)
+        L.require("C01.R8", FD, fn_, "%s %s: encoding leaves the message's fields as they were" % (cls, title), before, after)
+        L.ob("C01.R8", FD, fn_, "%s %s: encoding twice gives the same octets" % (cls, title), "identical", "identical" if data == data2 else
+             "%d vs %d octets / different content" % (len(data), len(data2)), data == data2)
+        if mutated is not None:
+            L.ob("C01.R8", FD, fn_, "%s %s: after changing a burst element in place the next encoding carries the changed burst" % (cls, title),
+                 "the changed burst", "the changed burst" if mutated[0] == mutated[1] else "another burst (%s)" % (mutated[1],),
+                 mutated[0] == mutated[1])
+    L.floor("C01.R8", "witness messages folded end to end", n, 30)
+
+
 def run(L, tier):
     repo = Repo(L.repo)
     L.unit(rel("gsm_shared"))
@@ -538,5 +650,6 @@ def run(L, tier):
     L.stage(r5_burst_len, L, repo, members)
     L.stage(r6_ownership, L, repo)
     L.stage(r6b_decoded_ownership, L, repo)
+    L.stage(r8_roundtrip, L, repo)
     from pyutil import memo_sound
     L.stage(memo_sound, L, repo, "C01.R7", ("data_msg", "gsm_shared"))
